@@ -3,7 +3,7 @@
 #   tools/try_patch.sh <patch.diff> <prop> [<prop> ...]      env: TIER=quick|thorough  RUNS=<n>  SEED=<n>
 # Prints one line per property: DETECTED / MISSED, plus the violation lines.
 set -u
-patch=$1; shift
+patch=$(readlink -f "$1"); shift
 V=$(cd "$(dirname "$0")/.." && pwd)
 S=$(mktemp -d /tmp/mrepo.XXXXXX)
 cp -r /repo/include /repo/src "$S"/
